@@ -74,21 +74,24 @@ ASSUMPTIONS = [
     'and the real ParseNeighbor._init_neighbor registers them (add_to_rib_watchdog)',
     'API operations enter through the real Configuration.announce_route / withdraw_route (what the API command handlers '
     'call) on a Configuration object holding this neighbor; operand attributes come from the real static-route parser',
-    'every route operand carries a symbolic prefix octet (hash_const soundness rule of the rib kit); prefixes are '
-    '10.0.<p>.0/24 and 2001:db8:0:<p>00::/56-style 2001:db8:00<p>::/48, p in 0..dom-1; the two configured IPv4 routes have different prefixes',
+    'every route operand carries a symbolic prefix octet p in 0..dom-1 (hash_const soundness rule of the rib kit): 10.0.<p>.0/24 and '
+    '2001:db8:00<p>::/48; the two configured IPv4 routes have different prefixes',
     'peer semantics: RFC 4271 (an announcement replaces the route with the same NLRI, a withdraw removes it; a new session '
     'starts from an empty table), RFC 4724 2 (End-of-RIB marker per family)',
     'eBGP session 65000 -> 65001, 4-byte AS, hold time 180 s, no ADD-PATH, no graceful restart, manual-eor false, group-updates default',
     'the remote speaker never sends UPDATEs or ROUTE-REFRESH (C04 covers refresh)',
 ]
 BOUNDS = {
-    'quick': {'configured routes': '2 (ipv4) / 2+1 (ipv4+ipv6 shape)', 'losses': 1,
-              'operations while up': '<= 2', 'operations while down': '<= 2',
-              'cut': 'refused | eof before OPEN | eof before KEEPALIVE | j-th UPDATE write fails, j symbolic 0..5 | eof / NOTIFICATION when idle',
-              'prefix octet': 'symbolic in 0..2', 'attribute pool': 'MED 10, MED 20, MED 10 with another next hop',
-              'adj-rib-out': 'true and false'},
-    'thorough': {'losses': 2, 'operations while up': '<= 2 per session', 'operations while down': '<= 2 per down period',
-                 'prefix octet': 'symbolic in 0..3 for the single-loss units'},
+    'quick': {'configured routes': '2 ipv4 (+1 ipv6 in the two-family shape)', 'losses': 1,
+              'cut': 'connect refused | EOF before OPEN | EOF before KEEPALIVE | j-th UPDATE-type write fails (j symbolic 0..4-6: every message '
+                     'of the initial batch, every End-of-RIB marker, every message of the next batch) | EOF / NOTIFICATION once everything is '
+                     'out | rate-limited neighbor: remote closes after j messages (seen at the next read, generator live)',
+              'operations': '(while up, while down) <= (1,1), (2,0), (0,2), (0,3 after a refused connect); kinds announce x3 attribute sets / '
+                            'withdraw (+ ipv6 kinds); operations while up arrive before the initial batch, after its first message or when idle',
+              'prefix octet': 'symbolic in 0..2', 'adj-rib-out': 'true and false', 'families': 'ipv4 unicast; ipv4+ipv6 unicast'},
+    'thorough': {'adds': '(1,2) operations for both adj-rib-out settings; two losses in a row (every ordered pair of the 6 cut kinds, <=1 '
+                         'operation while up, <=1 per down period); (0,3) over all cuts with prefix octet 0..3; the two-family shape over the '
+                         'full alphabet and with adj-rib-out false'},
 }
 OUTSIDE = [
     'graceful-restart stale-route timing on the remote side; ADD-PATH; families other than ipv4/ipv6 unicast',
@@ -806,7 +809,7 @@ def units(tier):
         tag = 'kept' if aro else 'off'
         us.append(_u('resync/%s/v4/establishment' % tag, ('cut:refused', 'cut:open-eof', 'cut:ka-eof', 'operation-while-down', 'final-nonempty'),
                      fams=(V4,), aro=aro, cuts=EST_CUTS, n_up=0, n_down=2, up_kinds=(), down_kinds=none4, weight=20))
-        us.append(_u('resync/%s/v4/live/u1d1' % tag, live_must, fams=(V4,), aro=aro, cuts=LIVE_CUTS, n_up=1, n_down=1,
+        us.append(_u('resync/%s/v4/live/u1d1' % tag, live_must, fams=(V4,), aro=aro, cuts=LIVE_CUTS, n_up=1, n_down=1, jmax=4,
                      up_kinds=none4, down_kinds=none4, weight=90))
         for k in KINDS4:
             us.append(_u('resync/%s/v4/live/u2d0/%s' % (tag, short(k)), ('cut:write', 'cut-inside-a-batch'), fams=(V4,), aro=aro, cuts=LIVE_CUTS,
@@ -815,11 +818,11 @@ def units(tier):
     us.append(_u('resync/kept/v46/establishment', ('cut:refused', 'routes-then-eor'), fams=(V4, V6), aro=True, cuts=EST_CUTS, n_up=0, n_down=1,
                  up_kinds=(), down_kinds=none46, weight=5))
     us.append(_u('resync/kept/v46/live/u1d1', ('cut:write', 'cut-inside-a-batch', 'routes-then-eor'), fams=(V4, V6), aro=True, cuts=LIVE_CUTS,
-                 n_up=1, n_down=1, jmax=7, up_kinds=('none', 'announce:y6', 'withdraw6', 'withdraw'), down_kinds=none46, up_at=('mid', 'idle'), weight=100))
+                 n_up=1, n_down=1, jmax=6, up_kinds=('none', 'announce:y6', 'withdraw6', 'withdraw'), down_kinds=none46, up_at=('mid', 'idle'), weight=100))
     # rate-limited neighbor: one message per loop iteration, so the remote end can close (seen at the next read) while the
     # update generator is partially consumed, and operations arrive between two messages of one batch
     us.append(_u('resync/kept/v4/rate/u1d1', ('cut:read', 'cut:write', 'remote-closes-while-generator-live', 'operation-while-first-batch-in-flight'),
-                 fams=(V4,), aro=True, rate=True, cuts=('read', 'write'), n_up=1, n_down=1, up_kinds=none4, down_kinds=none4, up_at=('mid', 'idle'), weight=80))
+                 fams=(V4,), aro=True, rate=True, cuts=('read', 'write'), n_up=1, n_down=1, jmax=4, up_kinds=none4, down_kinds=none4, up_at=('mid', 'idle'), weight=80))
     # three operations while down: enough for a superseded pending entry (known finding F2 of C04) to reach the next session
     us.append(_u('resync/kept/v4/down3', ('announce-over-existing',), fams=(V4,), aro=True, cuts=('refused',), n_up=0, n_down=3, up_kinds=(),
                  down_kinds=('announce:x', 'announce:y', 'withdraw'), weight=30))
@@ -827,19 +830,21 @@ def units(tier):
         for aro in (True, False):
             tag = 'kept' if aro else 'off'
             for k in none4:
-                us.append(_u('resync/%s/v4/live/u1d2/%s' % (tag, short(k)), (), fams=(V4,), aro=aro, cuts=LIVE_CUTS, n_up=1, n_down=2,
-                             up_kinds=none4, first_up=k, down_kinds=KINDS4, weight=300))
+                us.append(_u('resync/%s/v4/live/u1d2/%s' % (tag, short(k)), (), fams=(V4,), aro=aro, cuts=LIVE_CUTS, n_up=1, n_down=2, jmax=4,
+                             up_kinds=none4, first_up=k, down_kinds=KINDS4, weight=300, max_seconds=2400))
             # a second loss: attempt 1 and attempt 2 are both lost (any pair of cut points), attempt 3 is judged
             for c in EST_CUTS + LIVE_CUTS:
-                us.append(_u('resync/%s/v4/two-losses/%s' % (tag, c), ('operation-while-down',), fams=(V4,), aro=aro, cuts=(c,), later_cuts=EST_CUTS + LIVE_CUTS,
-                             losses=2, n_up=1, n_up_later=0, n_down=1, up_kinds=('none', 'announce:y', 'withdraw'),
-                             down_kinds=('none', 'announce:x', 'announce:y', 'withdraw'), later_down_kinds=none4, up_at=('mid', 'idle'), weight=250))
+                for gname, later in (('then-establishment', EST_CUTS), ('then-live', LIVE_CUTS)):
+                    us.append(_u('resync/%s/v4/two-losses/%s/%s' % (tag, c, gname), ('operation-while-down',), fams=(V4,), aro=aro, cuts=(c,), later_cuts=later,
+                                 losses=2, n_up=1, n_up_later=0, n_down=1, jmax=4, up_kinds=('none', 'announce:y', 'withdraw'),
+                                 down_kinds=('none', 'announce:x', 'announce:y', 'withdraw'), later_down_kinds=none4, up_at=('mid', 'idle'),
+                                 weight=250, max_seconds=2400))
         us.append(_u('resync/kept/v4/down3/dom4', (), fams=(V4,), aro=True, cuts=EST_CUTS, n_up=0, n_down=3, up_kinds=(), dom=4,
                      down_kinds=KINDS4, weight=200))
         us.append(_u('resync/off/v4/down3', (), fams=(V4,), aro=False, cuts=('refused',), n_up=0, n_down=3, up_kinds=(),
                      down_kinds=('announce:x', 'announce:y', 'withdraw'), weight=30))
-        us.append(_u('resync/kept/v46/live/u1d1/full', (), fams=(V4, V6), aro=True, cuts=LIVE_CUTS, n_up=1, n_down=1, jmax=7,
+        us.append(_u('resync/kept/v46/live/u1d1/full', (), fams=(V4, V6), aro=True, cuts=LIVE_CUTS, n_up=1, n_down=1, jmax=6,
                      up_kinds=none46, down_kinds=none46, weight=200))
-        us.append(_u('resync/off/v46/live/u1d1', (), fams=(V4, V6), aro=False, cuts=LIVE_CUTS, n_up=1, n_down=1, jmax=7,
+        us.append(_u('resync/off/v46/live/u1d1', (), fams=(V4, V6), aro=False, cuts=LIVE_CUTS, n_up=1, n_down=1, jmax=6,
                      up_kinds=('none', 'announce:y6', 'withdraw6', 'withdraw'), down_kinds=none46, up_at=('mid', 'idle'), weight=100))
     return us
